@@ -29,12 +29,9 @@ claim("C17",
       "Symlink/file_type semantics are OS behaviour modelled as an entry kind.",
       "Coq proof (codec round trip) + checked model/code correspondence")
 claim("C04",
-      "Coq theorems (PropC04.v): at the specification level and, through the refinement, for the log: within an incarnation the next position never decreases, the last "
-      "positions reported by appends strictly increase and are fresh (>= the previous next position), and after truncate(..=p) the next position is >= p+1, for every history "
-      "of calls. The restart/crash halves are decided by the checked correspondence plus a high-water-mark oracle over restarts and crash images of histories in which "
-      "emptied queues stay idle while every file that mentioned them is garbage-collected.",
-      "Restart and crash halves are not yet theorems end to end (see evidence.stated_not_proved).",
-      "Coq proof (monotonicity invariant on the spec, transferred by refinement) + checked model/code correspondence + crash/restart oracle")
+      'Coq theorems (PropC04.v): within an incarnation the next position never decreases, appended positions strictly increase and are fresh, and after truncate(..=p) the next position is >= p+1 - live for every history (specification level, transferred by refinement), across clean restarts anywhere (a restart never changes a next position, even for an emptied queue whose WAL files were all deleted), and after recovery from any crash image under any policy (recovered next positions are those of a specification state at least as recent as the persist point). Tied to the code by differential execution plus a high-water-mark oracle over restarts and crash images of histories in which emptied queues stay idle while every file that mentioned them is garbage-collected.',
+      'Crash half inherits the premises of C03_process_crash (incl. no_zero_collision, which only concerns payload bytes, not positions). Power-loss recovery: oracle only.',
+      'Coq proof (monotonicity on the spec, refinement, end-to-end restart and crash theorems) + checked model/code correspondence + crash/restart oracle')
 claim("C06",
       "Coq theorems (PropC06.v): the GC loop removes exactly a prefix of unreferenced files and never stops early; every call keeps the tracked files a contiguous run ending at the "
       "file being written; after a successful truncate/delete_queue the oldest file is current, still referenced by a retained record, or not older than the file written when the call "
@@ -63,22 +60,18 @@ claim("C11",
       "std's UnexpectedEof-as-short-file convention is part of the model (a short read is the short-file signal).",
       "Coq proof (invariant 'not fired or error' threaded through recovery) + checked model/code correspondence")
 claim("C12",
-      "Coq theorems (PropC12.v): whatever decodes as an AppendRecords entry is exactly the serialization of the whole batch; replaying such an entry appends all its records or fails as a whole; "
-      "the entry written by append_records decodes back to the full batch. The stream-level half (a torn or damaged entry is never delivered in part) is decided by the checked correspondence "
-      "plus an oracle over crash cuts inside the batch's writes and single-frame damage of its frames.",
-      "Stream-level atomicity theorems pending (TornProofs/DamageProofs).",
-      "Coq proof (codec soundness + replay all-or-nothing) + checked model/code correspondence + crash/damage oracle")
+      "Coq theorems (PropC12.v), END TO END: after any crash under any policy the recovered records of a batch are none, or all, or all above the highest later truncation - never a hole, never a missing tail (batch_crash, batch_crash_persisted, batch_crash_always, on top of the specification-level batch_all_or_nothing_spec); under CRC-detected damage the batch's entry is dropped as a whole and damage elsewhere leaves it intact (batch_damage_self, batch_damage_other); layers: codec soundness (a decoded batch is the whole batch), replay applies all records of an entry or fails, open on torn and on damaged files. For the real CRC-32 the crash half is subject to known finding F8 (a torn-off tail d ++ rawcrc(d) of the LAST record is accepted as zeros), reproduced on every run. Tied to the code by differential execution plus an oracle over crash cuts inside the batch's writes and payload / type-byte / checksum damage of its frames, in-phase batches included.",
+      'Crash theorems assume no_zero_collision (false for Crc.crc32: F8). Header-field damage (length, type byte): oracle only (F4 lives there).',
+      'Coq proof (spec-level suffix lemma + end-to-end crash and damage theorems) + checked model/code correspondence + crash/damage oracle')
 claim("C14",
       "Coq theorems (PropC14.v): one call, any history, clean drop and open are independent of the policy and of the OnDelay clock: identical outcomes (positions, eviction counts, errors, "
       "wal_bytes_written), same queues, same tracker/cursor, same directory once buffers are flushed, same result of open after a clean restart. Tied to the code by differential execution and a "
       "metamorphic oracle running each history under seven policies.",
       "", "Coq proof (erasure/equivalence relation preserved by every call) + checked model/code correspondence + metamorphic oracle")
 claim("C18",
-      "Coq theorems (PropC18.v): at the specification level and for the log, removing from any history the calls addressed to other queues changes neither q's content (range, last_position, "
-      "last_record) nor the logical outcomes of q's calls; replay of an entry touches only the queue it names. Restart/crash halves are decided by the checked correspondence plus a metamorphic "
-      "oracle (h versus h|q on the real crate, across restarts and GC).",
-      "Restart and crash halves rest on C01/C02 (not yet theorems end to end).",
-      "Coq proof (locality of the spec step, transferred by refinement) + checked model/code correspondence + metamorphic oracle")
+      "Coq theorems (PropC18.v): removing from any history the calls addressed to other queues changes neither q's content (range, last_position, last_record) nor the logical outcomes of q's calls - live for every history, across clean restarts anywhere, and after recovery from any crash image under any policy (what q recovers to is determined by the calls addressed to q alone, whatever file deletions the other queues' calls triggered); replay of an entry touches only the queue it names. Tied to the code by differential execution plus a metamorphic oracle (h versus h|q on the real crate, across restarts and GC).",
+      'Crash half inherits the premises of C03_process_crash. Power-loss recovery: oracle only.',
+      'Coq proof (locality of the spec step, refinement, end-to-end restart and crash theorems) + checked model/code correspondence + metamorphic oracle')
 claim("C01",
       "Coq theorems (PropC01.v), END TO END: C01_restart_identity - for every history of well-formed calls with clean restarts anywhere, from a fresh directory, dropping the log and opening the "
       "directory again succeeds and yields the same queues, the same retained records (range for all bounds, byte for byte), the same last position and last record; C01_history_spec - the whole history "
@@ -95,12 +88,9 @@ claim("C08",
       "Length/type-field damage is covered by the oracle, not by a theorem; CRC-32 collision resistance is outside any proof.",
       "Coq proof (invariant for all images, codec soundness, damaged-stream theorem) + checked model/code correspondence + damage oracle")
 claim("C09",
-      "Coq theorems (PropC09.v, stream level, every block size and checksum function): damage confined to checksum/payload bytes of one frame of entry x that fails the CRC leaves the reader exactly "
-      "where the intact frame would have; every other entry, earlier or later, same block or not, is read back intact; x is reported as one Corruption; generalised to any number of damaged frames "
-      "(delivered = the intact entries, in order). Through files and open: decided by the checked correspondence plus an oracle that damages every sampled writer frame (layout derived from the I/O trace) "
-      "and requires open to succeed with all records of un-hit appends intact.",
-      "The transfer from streams to files/open rests on FileStream.v (pending) and on replay tolerating one missing entry (checked by the oracle).",
-      "Coq proof (frame/record reader case analysis, induction over the frame layout) + checked model/code correspondence + per-frame damage oracle")
+      'Coq theorems (PropC09.v), END TO END: C09_damage_costs_one_entry / C09_from_fresh - from any state satisfying the global invariant (any history with restarts), after a clean drop, with the checksum/payload bytes of one frame of entry X damaged so that its CRC fails, open succeeds and every retained record not appended by X is still there with the same position and payload; layers: open over damaged files replays exactly the intact entries, replaying a legal log with one entry removed never fails and keeps every other record, stream-level theorems for any number of damaged frames (every block size and checksum function). Tied to the code by differential execution plus an oracle that damages every sampled writer frame (layout derived from the I/O trace) and requires all un-hit appends intact.',
+      "Premise dmg_bound (the recovery-time GC's position entries fit below 2^64 files). Undetected changes (CRC collisions) are excluded by the premise that the CRC check fails.",
+      'Coq proof (damaged-stream reader analysis, deletion simulation on the entry log, global invariant) + checked model/code correspondence + per-frame damage oracle')
 claim("C02",
       "Coq theorems (PropC02.v), END TO END for every checksum function without zero-completion collisions: C02_crash_atomic - from any state satisfying the global invariant, under a flush-per-operation "
       "policy, for EVERY crash image of a call (cut between any two file-system effects or after any number of bytes of any write) open succeeds and the recovered abstract state is that of the completed calls, "
